@@ -135,16 +135,22 @@ theorem defineGroup_fresh (members : List (String × NA)) (cn k : String) (st : 
       (fun gm hgm => hkey gm (by simp [hgm]))
     simpa [recOf] using this
 
+theorem groupClassName_fresh (members : List (String × NA)) (cn : String) (cl : Classes) (h : ∀ e ∈ cl, e.1 ≠ cn) :
+    groupClassName members cn cl = cn := by
+  simp [groupClassName, alookup_none_of_not_mem cn cl h]
+
 /-- _makeMarkClassDefinitions when the class names of the groups are pairwise different -/
 theorem makeClasses_closed (me : AList) (ns : List String) (K : String → String)
     (hcn : (ns.map (fun n => sanitize ("MC" ++ n))).Nodup) (hK : (ns.map K).Nodup)
     (hgrp : ∀ n ∈ ns, groupOf me n ≠ [] ∧ ((groupOf me n).map (·.1)).Nodup ∧ ∀ gm ∈ groupOf me n, gm.2.key = K n) :
-    ns.foldl (fun st n => (defineGroup (groupOf me n) (sanitize ("MC" ++ n)) st).1) ⟨[], []⟩ =
+    ns.foldl (fun st n =>
+      (defineGroup (groupOf me n) (groupClassName (groupOf me n) (sanitize ("MC" ++ n)) st.classes) st).1) ⟨[], []⟩ =
       ⟨ns.map (fun n => (sanitize ("MC" ++ n), (groupOf me n).map recOf)), ns.map (fun n => (K n, sanitize ("MC" ++ n)))⟩ := by
   have gen : ∀ (rest done : List String), ((done ++ rest).map (fun n => sanitize ("MC" ++ n))).Nodup →
       ((done ++ rest).map K).Nodup →
       (∀ n ∈ rest, groupOf me n ≠ [] ∧ ((groupOf me n).map (·.1)).Nodup ∧ ∀ gm ∈ groupOf me n, gm.2.key = K n) →
-      rest.foldl (fun st n => (defineGroup (groupOf me n) (sanitize ("MC" ++ n)) st).1)
+      rest.foldl (fun st n =>
+        (defineGroup (groupOf me n) (groupClassName (groupOf me n) (sanitize ("MC" ++ n)) st.classes) st).1)
         ⟨done.map (fun n => (sanitize ("MC" ++ n), (groupOf me n).map recOf)), done.map (fun n => (K n, sanitize ("MC" ++ n)))⟩ =
       ⟨(done ++ rest).map (fun n => (sanitize ("MC" ++ n), (groupOf me n).map recOf)),
        (done ++ rest).map (fun n => (K n, sanitize ("MC" ++ n)))⟩ := by
@@ -169,7 +175,8 @@ theorem makeClasses_closed (me : AList) (ns : List String) (K : String → Strin
         intro e'
         have hd := (nodup_append.mp h2).2.2 _ (mem_map.mpr ⟨n', hn', rfl⟩) (K n) (by simp)
         exact hd e'
-      rw [defineGroup_fresh (groupOf me n) (sanitize ("MC" ++ n)) (K n) _ g1 hfresh1 hfresh2 g2 g3]
+      rw [groupClassName_fresh _ _ _ hfresh1,
+        defineGroup_fresh (groupOf me n) (sanitize ("MC" ++ n)) (K n) _ g1 hfresh1 hfresh2 g2 g3]
       have := ih (done ++ [n]) (by simpa using h1) (by simpa using h2) (fun n' hn' => h3 n' (by simp [hn']))
       simpa using this
   have := gen ns [] (by simpa using hcn) (by simpa using hK) hgrp
